@@ -203,8 +203,18 @@ func c11Loops(c *Ctx, p *core.Prog, ep *errProv) {
 				}
 			}
 		}
+		// … or the statement parser itself polls on every path before doing anything else (must-poll summary)
+		viaCallee := false
+		if stmtCall != nil && !ok {
+			if cal := stmtCall.Call.StaticCallee(); cal != nil && mustPollSet(p.SrcFuncs("pkg/sql/parser"))[cal] {
+				ok, viaCallee = true, true
+				pos = stmtCall.Pos()
+			}
+		}
 		if stmtCall == nil {
 			r.Violate("poll-loop", "Parser.ParseContext", p.FnPos(fn), "no call to parseStatement found in the context-aware statement loop")
+		} else if ok && viaCallee {
+			r.OK("poll-loop", "Parser.ParseContext", p.Pos(pos), "every statement is parsed by a function that polls the context on every path")
 		} else if ok {
 			r.OK("poll-loop", "Parser.ParseContext", p.Pos(pos), "ctx.Err() is polled inside the statement loop before every parseStatement")
 		} else {
@@ -321,6 +331,7 @@ func c11Recursion(c *Ctx, p *core.Prog, pollFns map[*ssa.Function]bool) {
 	}
 	npoll := len(removed)
 	nguard := 0
+	cut := map[[2]*ssa.Function]bool{}
 	for _, fn := range fns {
 		if fn.Parent() != nil || removed[fn] {
 			continue
@@ -335,12 +346,22 @@ func c11Recursion(c *Ctx, p *core.Prog, pollFns map[*ssa.Function]bool) {
 				}
 			}
 		}
-		if inc && analyseGuard(p, fn, T, depth, limit, g).ok {
+		if !inc {
+			continue
+		}
+		gi := analyseGuard(p, fn, T, depth, limit, g)
+		if gi.ok {
 			removed[fn] = true
+			nguard++
+		} else if gi.partial {
+			// sound for the calls that come after its check (see C02 guard-shape)
+			for cc := range gi.guardedCallees {
+				cut[[2]*ssa.Function{fn, cc}] = true
+			}
 			nguard++
 		}
 	}
-	cycles := g.Cycles(removed, 20)
+	cycles := g.CyclesCut(removed, cut, 20)
 	for _, cyc := range cycles {
 		r.Violate("poll-recursion", cycleString(cyc), p.FnPos(cyc[0]), "recursion cycle with neither a context poll nor a depth guard: cancellation is not noticed while the input nests along it; call sites: "+cycleSites(p, g, cyc))
 	}
